@@ -28,6 +28,7 @@ EXPLANATION = (
     ' (R0) trim_response must cut by constants (a bound computed from unchecked response bytes is a violation); (R2 sensor-read) path rule: nothing touches the buffer between seek(self.offset) and read_value; (R3 cursor) only ProtocolResponse.seek / read move the payload cursor.'
     ' (R5, shared with C20.R1) no code assigns an attribute of a shared sensor definition from outside.'
     ' (R6, shared with C16.R1) the single reads (_read_sensor / _read_setting) request ceil(size_/2) registers at the sensor and decode from the first byte of the answer.'
+    ' (R7, shared with C13.R2) decode_bitmap visits bit positions 0..31 in order: every bit of a bitmap sensor\'s own registers shows in its value.'
 )
 
 GROUP_BASES = ("EcoModeV1", "Schedule")
@@ -92,6 +93,12 @@ def check(ctx: Ctx, rep: Report):
     rep.rule("C12.R6", "a sensor / setting read on its own is decoded from the first byte of an answer to a read of exactly its registers (shared with C16.R1)", 3)
     from .c16 import single_read_form
     single_read_form(ctx, rep, "C12.R6")
+    rep.rule("C12.R7", "the bitmap sensors list the labels of all 32 bits of their own registers: decode_bitmap visits bit positions 0..31 in order (shared with C13.R2)", 1)
+    from .c13 import r2_bitmap_fn
+    _sub7 = Report("C13", rep.tier)
+    r2_bitmap_fn(ctx, _sub7)
+    for o in _sub7.obligations:
+        rep.obligations.append(type(o)("C12.R7", o.key, o.where, o.what, o.status, o.detail))
     rep.rule("C12.R4", "the byte count announced by the type's docstring equals the bytes its decoder consumes", 25)
     prog = ctx.prog
     tabs, dec = tables_ctx(ctx), decoders_ctx(ctx)
